@@ -581,6 +581,20 @@ def check(ctx):
             r7.ok("the symbol table keeps generic arguments")
         else:
             r7.bad(V(r7.id, "EventParser::extract_type_name", "drops-generic-arguments", "the symbol table records only the last path segment's identifier: `items: Vec<P>` is typed `Vec`"))
+    # the translated type is what the listener is typed with, in both modes: the handler parameter and the `listen<..>` argument print the
+    # payload's TypeScript rendering (typescriptPayloadType), qualified — not the Rust spelling kept next to it in the same context
+    from tplpaths import Templates as _T7, consistent as _cons7
+    T7 = _T7(S)
+    for part_ in ("typescript/partials/event_listener.ts.tera", "zod/partials/event_listener.ts.tera"):
+        flat_ = "".join(p_.flat() for p_ in (T7.paths_in_context(part_) or []) if _cons7(p_.conds))
+        sites_ = re.findall(r"payload: ⟦([^⟧]*)⟧", flat_) + re.findall(r"listen<⟦([^⟧]*)⟧>", flat_)
+        if len(sites_) < 2:
+            r7.bad(V(r7.id, part_, "listener-type-sites:%d" % len(sites_), "expected the payload type at the handler parameter and at listen<..>"))
+        for h_ in sorted(set(sites_)):
+            if re.fullmatch(r"\w+\.typescriptPayloadType\|add_types_prefix", h_):
+                r7.ok("%s: listener typed with %s" % (part_, h_))
+            else:
+                r7.bad(V(r7.id, part_, "listener-type-source:%s" % h_, "the listener is typed with `%s`, not with the qualified TypeScript rendering of the payload type" % h_))
     r7.require_floor(8, "payload typing facts")
     rules.append(r7)
 
